@@ -268,6 +268,12 @@ func executeRun(s *RunSpec, runIdx int, racePath string) (doneEv, *violEv) {
 	d.Faults["lock_wait"] = int(lockWaits())
 	d.Faults["foreign_goroutine_hook_calls"] = int(foreignCalls())
 	d.Faults["stall"] = int(stall)
+	if s.Sched.StallHot {
+		d.Faults["stall_in_front_of_shared_state"] = int(stall)
+	}
+	if len(s.Objects) > 0 && s.Objects[0].Seed&narrowBit != 0 {
+		d.Faults["runs_with_few_keys"] = 1
+	}
 	d.Faults["delivered"] = int(delivered)
 	d.Faults["dup_planned"] = s.Plan.Dup
 	d.Faults["drop_planned"] = s.Plan.Drop
